@@ -93,12 +93,14 @@ Theorem C11_get_found_iff : forall k es, ascending es = true ->
 Proof. exact lookup_found_iff. Qed.
 Print Assumptions C11_get_found_iff.
 
-(* what the reader does when the filter of the candidate block is missing *)
-Theorem C11_get_missing_filter : forall tb k j,
-  t_hasf tb = true -> bi_valid (ikeys tb) (bi_seek_prev (ikeys tb) k) = true ->
-  find_le k (ikeys tb) = Some j -> t_filter tb j = None -> t_get tb k = GNotFound.
-Proof. exact get_missing_filter. Qed.
-Print Assumptions C11_get_missing_filter.
+(* Get stays exact when any subset of the per-block filters is missing (not loadable) *)
+Theorem C11_get_missing_filters : forall tb es k (missing : nat -> bool),
+  holds tb es -> filters_ok tb ->
+  let tb' := mkT (t_ikeys tb) (t_blocks tb) (t_hasf tb)
+                 (fun j => if missing j then None else t_filter tb j) (t_bad tb) in
+  t_get tb' k = lookup k es.
+Proof. exact get_missing_filters. Qed.
+Print Assumptions C11_get_missing_filters.
 
 (* guard: outside "key non-empty" the table is unreadable *)
 Theorem C11_empty_key_refuted :
